@@ -17,6 +17,7 @@ Definition E_seqno : N := 6.           (* C18: batch height is not previous heig
 Definition E_not_current : N := 7.     (* C18: batched transaction is not the one currently held for its slot *)
 Definition E_commit_nonce : N := 8.    (* C18: commit nonce moved without a commit that justifies it *)
 Definition E_below_ledger : N := 9.    (* C18: batched a nonce below the nonce the ledger reports for the account *)
+Definition E_commit_missed : N := 10.  (* C18: a commit named a transaction the pool still tracks, yet the commit nonce did not pass its nonce *)
 Definition E_lookup : N := 11.         (* C19: GetTransaction(h) returned a transaction with another hash *)
 Definition E_lost : N := 12.           (* C19: a held transaction disappeared without commit / supersede / age eviction / restart *)
 Definition E_not_admitted : N := 13.   (* C19: a fresh, non-stale transaction was not taken *)
@@ -55,11 +56,12 @@ Section Spec.
     w_sub : list tx;          (* handed to the pool since the last restart *)
     w_arr : list (tx * N);    (* clock at which a held transaction was taken *)
     w_led : list (N * N);     (* what the ledger oracle currently reports *)
+    w_live : list tx;         (* taken by the pool since the last restart and its (account, nonce) slot occupied ever since *)
     w_prev : obs
   }.
 
   Definition obs0 : obs := mkObs [] (map (fun _ => 0) accts) (map (fun _ => 0) accts) false false (map (fun _ => None) univ) 0 [0; 0; 0; 0; 0; 0; 0].
-  Definition w0 : wst := mkW [] 0 [] [] [] obs0.
+  Definition w0 : wst := mkW [] 0 [] [] [] [] obs0.
 
   Definition flag (b : bool) (code : N) : list N := if b then [code] else [].
 
@@ -226,12 +228,30 @@ Section Spec.
     | _ => w_arr w
     end.
 
+  (** a commit report that names a transaction the pool was given and whose slot has been occupied
+      ever since (by it or by a transaction that took the slot over) must move the account's
+      commit nonce past that nonce *)
+  Definition e_commit_missed (w : wst) (o : op) (ob : obs) : list N :=
+    match o with
+    | OCommit hs =>
+        flag (negb (forallb (fun h => negb (mem tx_eqb h (w_live w)) || (t_nonce h + 1 <=? obs_cmt ob (t_acct h))) hs)) E_commit_missed
+    | _ => []
+    end.
+  Definition st_live (w : wst) (o : op) (ob : obs) : list tx :=
+    match o with
+    | ORestart _ _ => []
+    | OProcess _ _ _ txs =>
+        filter (fun h => slot_held ob (slot_of h))
+               (filter (fun t => negb (held (w_prev w) t) && held ob t) txs ++ w_live w)
+    | _ => filter (fun h => slot_held ob (slot_of h)) (w_live w)
+    end.
+
   Definition check_step (w : wst) (o : op) (ob : obs) : list N * wst :=
     let '(e_b, B1, seq1, cm_exp) := st_batches w o ob in
     let B2 := live (obs_cmt ob) B1 in
-    (e_b ++ e_current o ob ++ e_commit_nonce w o ob cm_exp ++ e_lookup ob ++ e_lost w o ob ++ e_admitted w o ob
-         ++ e_flag ob B2 ++ e_pending ob ++ e_stale w o ob ++ e_liveness w o ob,
-     mkW B2 seq1 (st_sub w o) (st_arr w o ob) (st_led w o) ob).
+    (e_b ++ e_current o ob ++ e_commit_nonce w o ob cm_exp ++ e_commit_missed w o ob ++ e_lookup ob ++ e_lost w o ob
+         ++ e_admitted w o ob ++ e_flag ob B2 ++ e_pending ob ++ e_stale w o ob ++ e_liveness w o ob,
+     mkW B2 seq1 (st_sub w o) (st_arr w o ob) (st_led w o) (st_live w o ob) ob).
 
   (** all failures of a trace as (code, step index) *)
   Fixpoint check_trace (w : wst) (i : N) (tr : list (op * obs)) : list (N * N) :=
@@ -242,7 +262,7 @@ Section Spec.
         map (fun c => (c, i)) es ++ check_trace w' (N.succ i) r
     end.
 
-  Definition C18_codes : list N := [1; 2; 3; 4; 5; 6; 7; 8; 9].
+  Definition C18_codes : list N := [1; 2; 3; 4; 5; 6; 7; 8; 9; 10].
   Definition C19_codes : list N := [11; 12; 13; 14; 15; 16; 17].
 
   (** the property predicates: no failure with a code of the property *)
